@@ -112,6 +112,30 @@ CLAIMED.update({
 })
 
 CLAIMED.update({
+ "C13": dict(category="proof",
+    text="RawSocket on Twisted and asyncio: the handshake decision is proved as a function of the first four octets of "
+         "the stream however they are segmented (accumulate < 4, decide at 4, hand the rest to the framing layer): valid "
+         "magic octet + supported / requested serializer -> reply 7f|(exp)<<4|serializer|0000, exactly one attach attempt, "
+         "same serializer id on this side, announced limits recorded; anything else (wrong magic, non-zero reserved octets "
+         "on asyncio, unsupported serializer, server error reply) -> transport dropped, no session, no octet decoded, "
+         "no exception escaping. The asyncio frame decoder is proved against a recursive stream spec (canonical frames "
+         "of the concatenated stream, in order, each with exactly its payload; tail and cached header carried over; "
+         "reserved type / over-long frame closes before buffering) with a loop invariant. stringReceived / onMessage "
+         "ladders: messages to the session in order, any failure aborts once (WebSocket: 1002 for protocol violations "
+         "incl. invalid URIs, 1011 otherwise), nothing escapes; connectionLost / onClose tell the session once and "
+         "detach; send() never exceeds the peer's announced limit (shared with C10); WebSocket subprotocol selection: "
+         "first acceptable entry in the client's order, client accepts only what it offered, same serializer.",
+    note="Trusted: z3, pyvc; Twisted's Int32StringReceiver (length framing of the octets handed on) and the frameworks "
+         "calling connection_lost exactly once; session factory / ISession callbacks / unserialize arbitrary (return or "
+         "raise any Exception; asyncio cancellation propagates by design); ceil(log2) exact; parseSubprotocolIdentifier "
+         "is an assumed pure function in the proofs and checked by a *bounded* enumeration only (listed under bounded, "
+         "not counted as proved). Not covered: the WebSocket opening handshake itself (C07), asyncio PING/PONG frames "
+         "(NotImplementedError escapes to asyncio, which closes the transport), termination.",
+    technique="contract-based deductive verification: AST->VC, opaque recursive spec functions with unfold lemmas, loop "
+              "invariants, z3 (case split on path guards)"),
+})
+
+CLAIMED.update({
  "C04": dict(category="proof",
     text="IdGenerator.next stays in 1..2^53 and is sequential; every reply arm of ApplicationSession.onMessage "
          "(PUBLISHED, SUBSCRIBED, UNSUBSCRIBED, REGISTERED, UNREGISTERED, RESULT incl. progressive, ERROR keyed by request "
